@@ -1,8 +1,11 @@
 package tax
 
 import (
+	"fmt"
+
 	"github.com/invopop/gobl/l10n"
 	"github.com/invopop/jsonschema"
+	"github.com/invopop/validation"
 )
 
 // Regime defines a structure that can be embedded inside another structure to enable
@@ -37,6 +40,20 @@ func (r *Regime) SetRegime(country l10n.TaxCountryCode) {
 // RegimeDef provides the associated regime definition.
 func (r Regime) RegimeDef() *RegimeDef {
 	return Regimes().For(r.Country.Code())
+}
+
+// Validate ensures that the regime code, when one is given, refers to a
+// registered tax regime. Documents without a regime remain valid.
+func (r Regime) Validate() error {
+	if r.Country.Empty() {
+		return nil
+	}
+	if Regimes().For(r.Country.Code()) == nil {
+		return validation.Errors{
+			"$regime": fmt.Errorf("regime '%s' not defined", r.Country),
+		}
+	}
+	return nil
 }
 
 // IsEmpty returns true if the regime is empty.
